@@ -20,7 +20,8 @@ ASSUMPTIONS = ["user names contain no ':' or '@'; passwords no '/', '?', '#' (no
 
 SCHEMES = ["http", "https", "ws", "wss"]
 DEFAULT = {"http": 80, "https": 443, "ws": 80, "wss": 443}
-SERVERS = [("h", "default"), ("h", 8080), ("h", 80), ("h", 443), ("10.0.0.1", 80), ("::1", 8000)]
+SERVERS = [("h", "default"), ("h", 8080), ("h", 80), ("h", 443), ("10.0.0.1", 80), ("::1", 8000),
+           ("::ffff:192.0.2.1", 8000), ("64:ff9b::198.51.100.7", "default"), ("2001:db8:0:0:0:0:0:1", 8000), ("FE80::A", 8000)]  # IPv6 with a dotted IPv4 tail, in full form, in capitals
 HOSTS = [None, "x.org", "x.org:81", "[::1]:81"]
 ROOTS = ["", "/r", "/ré"]
 PATHS = ["/", "/a b", "/é", "/a?b", "/a#b", "", "/a/b.c", "/r/users", "/r", "/ré/x"]
@@ -125,6 +126,44 @@ def reconstruct_noserver(r):
             diff = sorted(k for k in want if got[k] != want[k])
             r.violation("reconstruct:noserver:" + ",".join(diff), w, f"ASGI URL {str(u)!r} from scheme={scheme} server {shape} Host={host!r} root={root!r} path={path!r}: {({k: got[k] for k in diff})} expected {({k: want[k] for k in diff})}")
     r.sample({"kind": "noserver", "server": None, "host": "example.com:8080"})
+
+
+def rewritten_requests(r):
+    """A request's URL is read, then something in front of the application rewrites the environ / scope (scheme, Host, path,
+    query - in place, or in a copy), and a new request object is made from it: its URL shows the new components."""
+    from baize.wsgi import Request as WReq
+    from baize.asgi import Request as AReq
+    edits = [("scheme", "https"), ("host", "public.example:8443"), ("path", "/other"), ("query", b"z=9"), ("root", "/mnt")]
+    for n in (1, 2):
+        for combo in itertools.combinations(edits, n):
+            for copy_first in (False, True):
+                base = SV.AReq(path="/p", root="", query=b"a=1", headers=[("Host", "h.org")], scheme="http", server=("h.org", 80))
+                new = SV.AReq(path=dict(combo).get("path", "/p"), root=dict(combo).get("root", ""), query=dict(combo).get("query", b"a=1"),
+                              headers=[("Host", dict(combo).get("host", "h.org"))], scheme=dict(combo).get("scheme", "http"), server=("h.org", 80))
+                for iface in ("wsgi", "asgi"):
+                    r.count("evaluations")
+                    r.count("distinct_nontrivial")
+                    w = {"kind": "rewritten", "iface": iface, "edits": [list(map(str, e)) for e in combo], "copy": copy_first}
+                    try:
+                        if iface == "wsgi":
+                            env = SV.to_environ(base)
+                            first = str(WReq(env).url)
+                            target = dict(env) if copy_first else env
+                            target.update({k: v for k, v in SV.to_environ(new).items() if k in ("wsgi.url_scheme", "HTTP_HOST", "PATH_INFO", "QUERY_STRING", "SCRIPT_NAME")})
+                            second = str(WReq(target).url)
+                            fresh = str(WReq(SV.to_environ(new)).url)
+                        else:
+                            sc = SV.to_scope(base)
+                            first = str(AReq(sc).url)
+                            target = dict(sc) if copy_first else sc
+                            target.update({k: v for k, v in SV.to_scope(new).items() if k in ("scheme", "headers", "path", "raw_path", "query_string", "root_path")})
+                            second = str(AReq(target).url)
+                            fresh = str(AReq(SV.to_scope(new)).url)
+                    except Exception as e:  # noqa
+                        r.violation(f"rewritten:exception:{type(e).__name__}", w, f"{iface} request URL after rewriting {combo} raised {e!r:.100}")
+                        continue
+                    if second != fresh:
+                        r.violation("rewritten:stale-url", w, f"{iface}: URL read ({first!r}), then {[e[0] for e in combo]} rewritten {'in a copy' if copy_first else 'in place'}, new request object: URL {second!r}, a request made from the new values alone has {fresh!r}")
 
 
 BASES = []
@@ -306,6 +345,7 @@ def run_shard(desc, tier):
                 for host in (None, "x.org"):
                     for scheme in order:
                         reconstruct(r, scheme, server, host, "", "/chat", b"")
+        rewritten_requests(r)
         r.sample({"sequence": ["http", "ws", "https", "wss"], "server": ["h", 80], "host": None})
     else:
         query_helpers(r)
